@@ -623,6 +623,11 @@ def calendars(rng, n, zones=None):
         if rng.random() < 0.25:
             # the project header declares the default working hours (for everybody without hours / shift of their own)
             p.default_hours = rng.choice([std_hours(480, 720, range(4)), std_hours(600, 1140), {d: [(420, 660), (720, 900)] for d in range(6)}])
+            if G <= 1800 and rng.random() < 0.6:
+                # edges on the slot grid but off the full hour: every slot of a clock hour has an answer of its own
+                q = G // 60
+                p.default_hours = rng.choice([{d: [(480, 720), (780, 1020 + q)] for d in range(4)}, std_hours(480 + q, 1020 - q),
+                                              {d: [(420 + q, 660 + q), (720 + q, 900 + 2 * q if q < 30 else 930)] for d in range(6)}])
         rs = []
         for k in range(rng.randint(1, 3)):
             style = rng.choice(["default", "day", "two", "night", "subset", "shift"])
@@ -630,6 +635,8 @@ def calendars(rng, n, zones=None):
             shift = None
             if style == "day":
                 a = rng.choice([360, 480, 540])
+                if G <= 1800 and rng.random() < 0.4:
+                    a += G // 60           # on the slot grid, off the full hour
                 hours = std_hours(a, a + 480, range(rng.choice([5, 7])))
             elif style == "two":
                 two = [(480, 720), (780, 1020)]
